@@ -64,7 +64,7 @@ def buffer_set(prog, nbases):
 
 DRV_MAIN = r'''
 static unsigned long long g_calls = 0, g_viol = 0;
-static void cv(const char *what, int pi, int i, int d) { ++g_viol; if (g_viol < 30) std::printf("COPYVIOL %s P%d src=%d dstlen=%d\n", what, pi, i, d); }
+static void cv(const char *what, int pi, int i, int d) { ++g_viol; static std::map<std::string, int> per_kind; if (per_kind[what]++ < 6) std::printf("COPYVIOL %s P%d src=%d dstlen=%d\n", what, pi, i, d); }
 int main() {
   static char obuf[1 << 20]; setvbuf(stdout, obuf, _IOFBF, sizeof obuf);
 @BODY@
@@ -126,7 +126,7 @@ def driver(prog, S):
         body.append("    }")
         body.append("    for (int i = 0; i < NBUF; ++i) std::free(ptr[i]);")
         body.append("  }")
-    return "\n".join([cppdrv.PRELUDE, "#include <vector>", decl, DRV_MAIN.replace("@BODY@", "\n".join(body))])
+    return "\n".join([cppdrv.PRELUDE, "#include <vector>\n#include <map>", decl, DRV_MAIN.replace("@BODY@", "\n".join(body))])
 
 
 def check_case(case):
@@ -186,7 +186,7 @@ def check_case(case):
                     viol.append({"key": "equals-wrong", "msg": "params=%s a=%s b=%s: Equals=%s, logical equality=%s" % (
                         prog.param_tuples[pi], S[i].hex(), S[j].hex(), ch, want),
                         "detail": {"emb": files, "a": S[i].hex(), "b": S[j].hex()}})
-                    if len(viol) > 20:
+                    if len([v for v in viol if v["key"] == "equals-wrong"]) > 20:
                         break
     seen, keep = {}, []
     for v in viol:
